@@ -22,6 +22,9 @@ CLAIMED = {
              technique="CrossHair symbolic execution + bit-precise SMT (QF_BVFP, cvc5/z3) lemma from the AST + bounded symbolic execution over reals",
              note="create_edges_new stubbed for the kernel harness; L <= 41 (kernel), L <= 4096 (lemma), ne <= 12; catalogue meshes with 0..8 interior points; parsed skeletons / dumps are outside.",
              ref="3/C11"),
+ "C13": dict(text="Three-frame series with symbolic positions, symbolic increasing time stamps and per-frame renumbering: the real calculate_velocity / get_point_id_by_map / set_velocity_matrix / get_system_velocity_per_frame are executed symbolically and every velocity, right-hand-side entry and normalisation is compared with the finite-difference definition as an identity between terms.",
+             note="Correspondence supplied through initial_guess (the search is C12); min/max as If-terms; T3 (K3 thorough); every used junction moves between consecutive frames (otherwise the adimensional normalisation divides by zero).",
+             ref="3/C13"),
  "C16": dict(text="Symbolic unit tangents, exact arccos comparison through monotonicity; the flagged-junction set, the excluded interfaces, the -1 re-insertion and the restricted system are each compared with an oracle computed from the tissue description, for every tangent configuration.",
              note="T3, K3 (K4 thorough); limits 0.5pi..pi, default, inf; cos(limit) is the nearest double; back-end contracts as in C05.",
              ref="3/C16"),
